@@ -73,10 +73,19 @@ def prepare(repo, dest, modules, package='profirust'):
     scratch.copy_tree(repo, dest)
     r1 = apply_r1(dest)
     table = GSD_ATTACH if package == 'gsd-parser' else ATTACH
+    hdir = os.path.join(dest, '.verif-kani')
+    os.makedirs(hdir, exist_ok=True)
     for m in modules:
-        src = os.path.join(VERIF, 'kani', m + '.rs')
-        if not os.path.exists(src):
-            raise FileNotFoundError(src)
+        src0 = os.path.join(VERIF, 'kani', m + '.rs')
+        if not os.path.exists(src0):
+            raise FileNotFoundError(src0)
+        # the harness module is copied next to the scratch sources; every harness gets a cfg switch so that a harness
+        # that no longer compiles against a restructured tree can be left out without blinding the others
+        txt = open(src0).read()
+        txt = re.sub(r'(?m)^(#\[kani::proof\][^\n]*\n(?:#\[[^\n]*\]\n)*\s*fn\s+(\w+)\s*\()', lambda mm: '#[cfg(not(verif_skip_%s))]\n%s' % (mm.group(2), mm.group(1)), txt)
+        txt = re.sub(r'(?m)^(step_harness!\((\w+),)', lambda mm: '#[cfg(not(verif_skip_%s))]\n%s' % (mm.group(2), mm.group(1)), txt)
+        src = os.path.join(hdir, m + '.rs')
+        open(src, 'w').write(txt)
         scratch.append(dest, table[m], '#[cfg(kani)]\n#[path = "%s"]\npub(crate) mod __verif_kani;' % src)
         if m in REEXPORT:
             scratch.append(dest, REEXPORT[m][0], '#[cfg(kani)]\n#[allow(unused_imports)]\n' + REEXPORT[m][1])
@@ -170,6 +179,62 @@ def run_group(entry, repo='/repo', tier='quick', seed=0):
             text += '\nTIMEOUT'
         res = parse_output(text)
         build_failed = ('error: could not compile' in text or 'error[E' in text) and not res
+        skipped = []
+        for _attempt in range(4):
+            if not build_failed:
+                break
+            # which harnesses do the compile errors sit in?
+            bad = set()
+            unmapped = False
+            for mm in re.finditer(r'-->\s*(\S*\.verif-kani/(\w+)\.rs):(\d+):', text):
+                lines = open(mm.group(1)).read().split('\n')
+                ln = int(mm.group(3)) - 1
+                name = None
+                for j in range(ln, -1, -1):
+                    m2 = re.match(r'^#\[cfg\(not\(verif_skip_(\w+)\)\)\]', lines[j])
+                    if m2:
+                        name = m2.group(1)
+                        break
+                    if re.match(r'^(pub(\(crate\))? )?(fn|struct|impl|static|const|macro_rules)', lines[j]) and j != ln and not lines[j].startswith('fn ' ) :
+                        break
+                    if re.match(r'^fn \w+', lines[j]) and j < ln:
+                        # a top-level fn: harness fns carry the cfg line right above their attributes
+                        k = j - 1
+                        while k >= 0 and lines[k].startswith('#['):
+                            m3 = re.match(r'^#\[cfg\(not\(verif_skip_(\w+)\)\)\]', lines[k])
+                            if m3:
+                                name = m3.group(1)
+                            k -= 1
+                        break
+                if name:
+                    bad.add(name)
+                else:
+                    unmapped = True
+            bad -= set(skipped)
+            if not bad or unmapped:
+                break
+            skipped += sorted(bad)
+            env['RUSTFLAGS'] = (env.get('RUSTFLAGS', '') + ' ' + ' '.join('--cfg verif_skip_%s' % b for b in bad)).strip()
+            cmd = [c for c in cmd]
+            # drop the skipped harnesses from the command line
+            keep = []
+            i_ = 0
+            while i_ < len(cmd):
+                if cmd[i_] == '--harness' and cmd[i_ + 1] in bad:
+                    i_ += 2
+                    continue
+                keep.append(cmd[i_])
+                i_ += 1
+            cmd = keep
+            if '--harness' not in cmd:
+                break
+            try:
+                p = subprocess.run(cmd, cwd=cwd, env=env, capture_output=True, text=True, timeout=timeout)
+                text = p.stdout + '\n' + p.stderr
+            except subprocess.TimeoutExpired:
+                text = 'TIMEOUT'
+            res = parse_output(text)
+            build_failed = ('error: could not compile' in text or 'error[E' in text) and not res
         if build_failed:
             out['status'] = 'inconclusive'
             errs = re.findall(r'error(?:\[E\d+\])?: .*', text)
@@ -180,7 +245,7 @@ def run_group(entry, repo='/repo', tier='quick', seed=0):
                   'complete': bool(h.get('complete', False)), 'bounds': h.get('bounds'), 'time_s': r['time_s'] if r else None}
             if build_failed or r is None or r['verdict'] is None:
                 ob['status'] = 'undecided'
-                ob['detail'] = 'no verdict (build failure, timeout or resource limit)'
+                ob['detail'] = 'harness no longer compiles against this tree (lost anchor)' if h['name'] in skipped else 'no verdict (build failure, timeout or resource limit)'
                 out['status'] = 'inconclusive'
                 out.setdefault('reason', 'kani produced no verdict for %s' % h['name'])
             elif r['verdict'] == 'SUCCESSFUL':
